@@ -5,7 +5,7 @@ use std::ops::Range;
 use crate::errors::{Error, Result};
 use crate::events::{BytesCData, BytesDecl, BytesEnd, BytesStart, BytesText, Event};
 use crate::name::{LocalName, Namespace, QName, ResolveResult};
-use crate::tape::{self, kind, ns, Cell, Cursor, NS_URIS};
+use crate::tape::{self, kind, ns, Cell, Cursor, Inline, NS_CAP, NS_TABLE, NS_URIS};
 
 pub type Span = Range<usize>;
 
@@ -17,6 +17,8 @@ pub struct NsReader<R> {
     slot: Option<u8>,
     cur: Cursor,
     trim: bool,
+    /// namespace of the element event returned last (what its `ResolveResult` borrows)
+    ns_buf: Inline<NS_CAP>,
 }
 
 impl<R> NsReader<R> {
@@ -59,7 +61,7 @@ impl<R> NsReader<R> {
                 let local = LocalName(&name.0[name.0.len() - a.local.len()..]);
                 return match a.ns {
                     ns::UNBOUND => (ResolveResult::Unbound, local),
-                    ns::UNKNOWN => (ResolveResult::Unknown(Vec::new()), local),
+                    ns::UNKNOWN => (ResolveResult::Unknown(b""), local),
                     n => (ResolveResult::Bound(Namespace(NS_URIS[n as usize % ns::COUNT])), local),
                 };
             }
@@ -76,7 +78,7 @@ impl<'i> NsReader<&'i [u8]> {
     pub fn from_str(s: &'i str) -> Self {
         let b = s.as_bytes();
         let slot = if !b.is_empty() && (b[0] as usize) < tape::SLOTS { Some(b[0]) } else { None };
-        Self { input: b, slot, cur: Cursor::default(), trim: false }
+        Self { input: b, slot, cur: Cursor::default(), trim: false, ns_buf: Inline::EMPTY }
     }
 
     fn next_cell(&mut self) -> Option<Cell> {
@@ -127,9 +129,10 @@ impl<'i> NsReader<&'i [u8]> {
                 if c.ns == ns::UNBOUND {
                     Ok((ResolveResult::Unbound, ev))
                 } else if c.ns as usize >= ns::COUNT {
-                    Ok((ResolveResult::Unknown(Vec::new()), ev))
+                    Ok((ResolveResult::Unknown(b""), ev))
                 } else {
-                    Ok((ResolveResult::Bound(Namespace(NS_URIS[c.ns as usize])), ev))
+                    self.ns_buf = NS_TABLE[c.ns as usize];
+                    Ok((ResolveResult::Bound(Namespace(self.ns_buf.as_slice())), ev))
                 }
             }
             _ => Ok((ResolveResult::Unbound, ev)),
